@@ -15,6 +15,7 @@ import (
 	"bytes"
 	"encoding/hex"
 	"fmt"
+	"hash/crc32"
 	"io"
 	"os"
 	"path/filepath"
@@ -105,15 +106,15 @@ type c19Ev struct {
 }
 
 type c19Scenario struct {
-	launch   string // ok | fail (work dir missing) | chooser (no path configured, no dialog tool) | absent (helper not on PATH)
-	autoexit int    // -1: the helper waits for commands; otherwise it exits at once with this code
-	evs      []c19Ev
-	horizon  int
-	ended    bool // the script contains an event after which the terminal must come back
+	launch     string // ok | fail (work dir missing) | chooser (no path configured, no dialog tool) | absent (helper not on PATH)
+	autoexit   int    // -1: the helper waits for commands; otherwise it exits at once with this code
+	evs        []c19Ev
+	horizon    int
+	ended      bool // the script contains an event after which the terminal must come back
 	probeOut   []byte
 	probeTyped [][]byte // the three typed texts of the probe
 	probeStart int      // nominal time of the first probe event
-	tags     []string
+	tags       []string
 }
 
 func (sc *c19Scenario) modelArgs(readerr string) []string {
@@ -186,16 +187,16 @@ var (
 )
 
 type c19Result struct {
-	canon     string
-	readerr   string // per session: "1" if the reader reported a read error at the helper's exit
-	term      []string
-	srv       []string
-	passMs    int // time from the last scripted event to the first cleanup "\r" (or -1)
+	canon      string
+	readerr    string // per session: "1" if the reader reported a read error at the helper's exit
+	term       []string
+	srv        []string
+	passMs     int // time from the last scripted event to the first cleanup "\r" (or -1)
 	probeOut   bool
-	probeTyped []bool // which typed probe texts reached the server unchanged
-	probeCtrlC int    // how many of the probe's two lone Ctrl-C bytes reached the server
-	startedOn [][]byte // chunks right after whose forwarding the cursor was hidden
-	driftMs   int      // how late the harness itself was with its worst scripted event
+	probeTyped []bool   // which typed probe texts reached the server unchanged
+	probeCtrlC int      // how many of the probe's two lone Ctrl-C bytes reached the server
+	startedOn  [][]byte // chunks right after whose forwarding the cursor was hidden
+	driftMs    int      // how late the harness itself was with its worst scripted event
 }
 
 func c19TermItem(b []byte) (string, bool) {
@@ -241,7 +242,6 @@ func c19SrvItem(b []byte) string {
 	}
 	return "d" + hx(b)
 }
-
 
 // c19Run executes one scenario on a fresh filter.  PATH and C19_HELPER are process wide
 // and set by the caller.
@@ -916,6 +916,7 @@ func c19Oracles(c *ctx, sc *c19Scenario, r *c19Result, args []string) {
 		}
 	}
 	scen := fmt.Sprintf("launch=%s/autoexit=%d/%s", sc.launch, sc.autoexit, strings.Join(pre, ";"))
+	scen = fmt.Sprintf("%08x-%s", crc32.ChecksumIEEE([]byte(scen)), scen) // replay file names are cut short
 	// Judged on the real filter only, no model involved: c19Ended says (conservatively) that
 	// a terminating event happened - helper exit with any code, launch failure, chooser
 	// error, Ctrl-C, server cancel before the helper started, no session at all - and the
